@@ -11,7 +11,9 @@ RULE = ("part protocol (engine rtps): reliable and best-effort pairs, VOLATILE a
         "writer KEEP_ALL / KEEP_LAST(1..3) over 1-3 instances, TRANSIENT_LOCAL or VOLATILE, 0-6 writes before the readers exist, lossy "
         "catch-up (drop / hold / duplicate of DATA, GAP, HEARTBEAT, ACKNACK), 1-2 readers (reliable or best-effort, TRANSIENT_LOCAL or "
         "VOLATILE, in their own participants; in 1 of 6 cases two readers share a participant), later writes to new instances, "
-        "`wait-hist`, healing, final `wait-hist` and `take`. Non-trivial = writes before a reader was created and (a fault or a VOLATILE reader)")
+        "`wait-hist`, healing, final `wait-hist` and `take`; plus two-writer cases: ONE reliable TRANSIENT_LOCAL reader and TWO TRANSIENT_LOCAL "
+        "writers in their own participants (in 1 of 4 the reader exists first, with no matched writer), the catch-up from one writer "
+        "dropped / held, `wait-hist` with bounds 1 us .. 650 ms each followed by `take` at the same instant. Non-trivial = writes before a reader was created and (a fault or a VOLATILE reader)")
 ASSUMPTIONS = ["the network does not forge; one writer",
                "theorems and model prediction cover ONE reader of the writer per participant; two readers of one writer in one participant "
                "are exercised by the oracle only (open finding D-rtps-2)",
@@ -36,6 +38,17 @@ CORPUS_DSIM = [
     H + ["writer w pub t1 reliability=reliable history=keep_all durability=transient_local", "trace on", "write w 1 1", "trace show",
          "reader r2 sub2 t2 reliability=reliable history=keep_all", "trace show", "now", "wait-hist r2 1000", "trace show", "now",
          "write w 2 2", "trace show", "take r2"],
+    # two TRANSIENT_LOCAL writers, the catch-up from the second one held: wait_for_historical_data must wait for BOTH
+    ["participant P1", "participant P2", "participant P3", "topic t1 P1 T ki", "topic t2 P2 T ki", "topic t3 P3 T ki", "publisher pub P1",
+     "subscriber sub2 P2", "publisher pub3 P3", "trace on",
+     "writer w pub t1 reliability=reliable history=keep_all durability=transient_local", "trace show", "write w 1 1", "trace show",
+     "writer w2 pub3 t3 reliability=reliable history=keep_all durability=transient_local", "trace show", "write w2 21 2", "trace show",
+     "hold DATA user from=P3", "reader r2 sub2 t2 reliability=reliable history=keep_all durability=transient_local", "trace show",
+     "now", "wait-hist r2 450000000", "trace show", "now", "take r2", "clear-faults", "now", "release", "trace show", "advance 1000000000",
+     "trace show", "now", "wait-hist r2 1050000000", "trace show", "now", "take r2"],
+    # a TRANSIENT_LOCAL reader without any matched writer: answered at once
+    H + ["trace on", "reader r2 sub2 t2 reliability=reliable history=keep_all durability=transient_local", "trace show", "now",
+         "wait-hist r2 250000000", "trace show", "now", "take r2"],
     # D-rtps-4 (open): empty history: no heartbeat, wait_for_historical_data never completes
     H + ["writer w pub t1 reliability=reliable history=keep_all durability=transient_local", "trace on",
          "reader r2 sub2 t2 reliability=reliable history=keep_all durability=transient_local", "trace show", "clear-faults", "now",
@@ -77,6 +90,8 @@ def run(ctx):
     dcases = [Case(list(c), {"kind": "corpus"}) for c in CORPUS_DSIM]
     for k in range(400 if quick else 1500):
         dcases.append(D.gen_c04(r, long=(not quick and k % 6 == 0)))
+    for k in range(200 if quick else 800):
+        dcases.append(D.gen_c04_two_writers(r))
     for c in dcases:
         for l in c.lines:
             t = l.split()
